@@ -641,6 +641,14 @@ func c18SingleRoot(c *Ctx) {
 		}
 	}
 	h.Instr = func(st *State, ins ssa.Instruction) {
+		// the node built on this path (possibly inside a helper that assembles it)
+		if mi, ok := ins.(*ssa.MakeInterface); ok && strings.HasPrefix(typeName(mi.X.Type()), "desync.Node") {
+			if typeName(mi.X.Type()) == "desync.NodeDirectory" {
+				st.Flags["lastnode"] = 1
+			} else {
+				st.Flags["lastnode"] = 2
+			}
+		}
 		if sto, ok := ins.(*ssa.Store); ok {
 			if fa, ok := sto.Addr.(*ssa.FieldAddr); ok && strings.HasPrefix(fieldOf(fa), "ArchiveDecoder.") && isBool(sto.Val.Type()) {
 				if k, isK := sto.Val.(*ssa.Const); isK && k.Value != nil && k.Value.ExactString() == "true" {
@@ -704,10 +712,7 @@ func c18SingleRoot(c *Ctx) {
 		// same facts that decide which node is returned (the elements that followed the entry),
 		// not by something the archive can set independently (the mode bits of the entry)
 		if first != "" {
-			isDirNode := false
-			if mi, isNode := stripConv(ret.Results[0]).(*ssa.MakeInterface); isNode {
-				isDirNode = strings.HasSuffix(typeName(mi.X.Type()), "NodeDirectory")
-			}
+			isDirNode := st.Flags["lastnode"] == 1
 			for k, v := range st.Flags {
 				if strings.HasPrefix(k, "computed:") && !isDirNode && v != 2 {
 					bad = append(bad, fmt.Sprintf("return at %s yields a root node that is not a directory while %s is not known to be false on that path: a root symlink whose entry carries directory mode bits is followed by the entries after it (trail tail %s)", c.pos(ret.Pos()), strings.TrimPrefix(k, "computed:"), tailOf(st.Trail, 6)))
